@@ -72,6 +72,12 @@ def cases(tier, seed):
                     "cap": 20 if tier == "quick" else None})
     for layers in stacks1 + (stacks2 if tier == "thorough" else stacks2[:6]):
         out.append({"name": "nested.cb/%s" % ">".join(layers), "kind": "nestedcb", "layers": layers})
+    # a raising poll function fails the futures it was shown; their done-callbacks (which submit again) run on the poll
+    # thread, while a client is inside submit() with a delegate whose futures are already done
+    for layers in (["poll"], ["poll", "map"], ["map", "poll"], ["poll", "retry"], ["poll", "cos"]):
+        for direction in ("submit|poll", "poll|submit"):
+            out.append({"name": "nested.poll-raise/%s/%s" % (">".join(layers), direction), "kind": "pollraisecb", "layers": layers,
+                        "dir": direction, "cap": None})
     nf = 16 if tier == "quick" else 1500
     for i in range(nf):
         out.append({"name": "api.fuzz/%d" % i, "kind": "fuzz", "idx": i, "n": 12 if tier == "quick" else 30})
@@ -676,6 +682,92 @@ def run_fuzz(case, res):
             end(ctx)
 
 
+class PollRaiseCbScenario(object):
+    def __init__(self, case):
+        self.case = case
+
+    def setup(self):
+        ctx = Ctx()
+        spec = {"base": "me", "layers": layer_specs(self.case["layers"])}
+        for L in spec["layers"]:
+            if L["t"] == "poll":
+                L["mode"] = "raise_once"
+                L["interval"] = 50.0
+            if L["t"] == "retry":
+                L["max_attempts"] = 1
+        n0 = len(instr.TRACKED)
+        b = stacks.build(ctx, spec)
+        ctx.b = b
+        ctx.poll_role = [t.vf_role for t in instr.TRACKED[n0:] if "Poll" in t.vf_role][-1]
+        ctx.n = 0
+        ctx.futs = []
+
+        def cb(_f):
+            if ctx.n >= 2:
+                return
+            ctx.n += 1
+            try:
+                ctx.futs.append(call("nested.submit", b.top.submit, lambda: "nested"))
+            except RuntimeError as e:
+                if "cannot schedule" not in str(e):
+                    raise
+        # two futures whose delegates are pending; they will be in the polling stage when the poll function raises
+        for i in range(2):
+            f = b.top.submit(lambda i=i: i)
+            f.add_done_callback(cb)
+            ctx.futs.append(f)
+        instr.settle()
+        # from now on the delegate runs callables inline: a client's submit() registers for polling inside submit()
+        b.base.auto = harness.run_inline
+        return ctx
+
+    def trigger_poll(self, ctx):
+        # the pending delegate work ends -> registration -> the poll thread wakes up, is shown both, raises
+        for i in ctx.b.base.pending():
+            ctx.b.base.complete(i, ("v", i))
+
+    def client_submit(self, ctx):
+        try:
+            ctx.futs.append(call("submit", ctx.b.top.submit, lambda: "client"))
+        except RuntimeError as e:
+            if "cannot schedule" not in str(e):
+                raise
+
+    def victim_role(self, ctx):
+        return "V" if self.case["dir"].startswith("submit") else ctx.poll_role
+
+    def start_victim(self, ctx):
+        if self.case["dir"].startswith("submit"):
+            return ctx.actor("V", self.client_submit, ctx).go()
+        return ctx.actor("T", self.trigger_poll, ctx).go()
+
+    def intervene(self, ctx):
+        if self.case["dir"].startswith("submit"):
+            self.trigger_poll(ctx)
+        else:
+            self.client_submit(ctx)
+
+    def hang_key(self, ctx, stuck):
+        return "poll-raise-cb/%s/%s" % (">".join(self.case["layers"]), self.case["dir"])
+
+    def finish(self, ctx):
+        for _ in range(3):
+            instr.advance(1.0)
+            for i in ctx.b.base.pending():
+                ctx.b.base.complete(i, 1)
+        a = ctx.actor("F", ctx.b.top.shutdown, True).go()
+        ctx.finish_state = drive([a])
+
+    def oracle(self, ctx, res, info):
+        if ctx.finish_state != "ok":
+            res.violation("hang/final-shutdown/%s" % ">".join(self.case["layers"]),
+                          "shutdown(wait=True) did not return (%s): %s" % (ctx.finish_state, instr.describe_threads()), stacks=hang_report(ctx.actors))
+            harness.mark_recycle()
+        if info.get("hit"):
+            res.key("pollraisecb", ">".join(self.case["layers"]), self.case["dir"], info.get("site"))
+        res.count("poll_raise_callbacks", ctx.n)
+
+
 def run_nestedcb(case, res):
     """Done-callbacks that submit again, run from every internal thread context:
     the delegate's completing thread, the canceller, the timeout thread, the
@@ -770,6 +862,10 @@ def run_case(case, res):
         return run_nestedcb(case, res)
     if case["kind"] == "refused":
         return run_refused(case, res)
+    if case["kind"] == "pollraisecb":
+        rng = random.Random("c04p/%s/%s" % (case["seed"], case["name"]))
+        Sweep(PollRaiseCbScenario(case), res, "vt", case["name"]).run(case["cap"], rng, per_site=2)
+        return
     if case["kind"] == "pair":
         run_pair(case, res)
     elif case["kind"] == "nested":
